@@ -108,7 +108,7 @@ package secp256k1
 //@ declare bit(Int, Int) Int
 //@ declare hi(Int, Int) Int
 //@ lemma bit_def(v, i) {lean: Secp.bit_def}: bit(v, i) == (v / pow2(i)) % 2
-//@ lemma bit_limb(lo, nk, hi, k, c) {lean: Secp.bit_limb}: imp(0 <= lo && lo < pow2(64*k) && 0 <= nk && nk < pow2(64) && 0 <= hi && 0 <= c && c < 64, bit(lo + nk * pow2(64*k) + hi * pow2(64*k+64), 64*k + c) == (nk / pow2(c)) % 2)
+//@ lemma bit_limb(lo, nk, hi, k, c) {lean: Secp.bit_limb}: imp(0 <= k && 0 <= lo && lo < pow2(64*k) && 0 <= nk && nk < pow2(64) && 0 <= hi && 0 <= c && c < 64, bit(lo + nk * pow2(64*k) + hi * pow2(64*k+64), 64*k + c) == (nk / pow2(c)) % 2)
 //@ lemma hi_step(v, i) {lean: Secp.hi_step}: imp(0 <= i, hi(v, i) == 2 * hi(v, i + 1) + bit(v, i) && 0 <= bit(v, i) && bit(v, i) <= 1)
 //@ lemma hi_top(v) {lean: Secp.hi_top}: imp(0 <= v && v < pow2(256), hi(v, 256) == 0)
 //@ lemma hi_zero(v) {lean: Secp.hi_zero}: hi(v, 0) == v
